@@ -320,7 +320,12 @@ class MemFilestore(VirtualFilestore):
             ChecksumType.MODULAR: "modular",
             ChecksumType.CRC_32: "crc32",
             ChecksumType.CRC_32C: "crc32c",
-        }[checksum_type]
+        }.get(checksum_type)
+        if name is None:
+            # like the native filestore: a checksum type which is not implemented is reported with the library's own exception
+            from cfdppy.exceptions import ChecksumNotImplemented
+
+            raise ChecksumNotImplemented(checksum_type)
         return models.checksum(name, bytes(self.files[k][:size_to_verify]))
 
 
